@@ -31,6 +31,8 @@ STYLES = ("rest", "google", "numpydoc")
 PUNCT_DOCS = ["the key: value pairs kept as they are", "first, second and third axis", "width; height comes next", "rows - columns are inferred",
               "scale (in pixels) of the image", "the 'quoted' label text", "ratio a/b of the sides", "see http://host/x for details", "weights, biases, and so on",
               "step size, i.e. the increment", "one of: fast, slow", "name -> index mapping", "x = y + z at most"]
+# descriptions that use the word "default" without announcing one
+DEFAULT_WORD_DOCS = ["the default font size", "used when no default is configured", "Default zoom factor", "overrides the site-wide default", "a non-default port"]
 # descriptions that mention, as prose, the section keywords of the docstring styles
 KEYWORD_DOCS = ["on failure it e.g. Raises: nothing", "what the function Returns: see below", "all of the Args: are checked", "the Parameters of the model", "the role :param is not used here",
                 "extra Kwargs: none"]
@@ -61,6 +63,8 @@ def gen_case(r):
             p["doc"] = r.choice(PUNCT_DOCS)
         elif r.random() < 0.04 and "doc" in p:
             p["doc"] = r.choice(KEYWORD_DOCS)
+        elif r.random() < 0.06 and "doc" in p:
+            p["doc"] = r.choice(DEFAULT_WORD_DOCS)
     # parameters / return entries without a description (type only)
     for n, p in list(ir["params"].items()) + (list(ir["returns"].items()) if ir.get("returns") else []):
         if r.random() < 0.12 and p.get("typ"):
